@@ -6,6 +6,9 @@ fn main() {
     let what = args.v.get(1).cloned().unwrap_or_default();
     match what.as_str() {
         "c02" => harness::d_verify::c02(&args),
+        "c07" => harness::d_codec::c07(&args),
+        "decoders" => harness::d_decode::decoders(&args),
+        "replay-codec" => harness::d_codec::replay_codec(&args),
         _ => {
             eprintln!("unknown driver {}", what);
             std::process::exit(2);
